@@ -18,26 +18,26 @@ import (
 )
 
 type World struct {
-	repo      string
-	verif     string
-	fset      *token.FileSet
-	prog      *ssa.Program
-	pkgs      []*packages.Package
-	typePkgs  map[string]*types.Package // verified packages by name
-	allPkgs   []*types.Package
-	ssaPkgs   map[string]*ssa.Package
-	cs        *ContractSet
-	lits      *Lits
-	heapSorts map[string]string
-	heapOrder []string
-	fnByKey   map[string]*ssa.Function
-	specUsed  map[string]bool
-	typeIDs   map[string]int
+	repo       string
+	verif      string
+	fset       *token.FileSet
+	prog       *ssa.Program
+	pkgs       []*packages.Package
+	typePkgs   map[string]*types.Package // verified packages by name
+	allPkgs    []*types.Package
+	ssaPkgs    map[string]*ssa.Package
+	cs         *ContractSet
+	lits       *Lits
+	heapSorts  map[string]string
+	heapOrder  []string
+	fnByKey    map[string]*ssa.Function
+	specUsed   map[string]bool
+	typeIDs    map[string]int
 	writesMemo map[string]map[string]bool
 	writesBusy map[string]bool
-	funcIDs   map[string]int
-	specText  string // cached SMT text of spec definitions
-	warnings  []string
+	funcIDs    map[string]int
+	specText   string // cached SMT text of spec definitions
+	warnings   []string
 }
 
 func shortFuncKey(f *ssa.Function) string {
